@@ -221,8 +221,8 @@ fn in_process_case(cx: &mut CaseCtx, input: Input, cfg: &GenCfg) -> CaseResult {
 /// file; with and without a use of the colliding name.
 fn collision_case(cx: &mut CaseCtx, input: Input) -> CaseResult {
     let idx = input.index();
-    let template = idx % 10;
-    let with_use = (idx / 10) % 2 == 1;
+    let template = idx % 14;
+    let with_use = (idx / 14) % 2 == 1;
     let files: Vec<(&str, String)> = match template {
         0 => vec![("a.slice", "module A\nstruct X {}\n".into()), ("b.slice", "module A\ncustom X\n".into())],
         1 => vec![
@@ -265,6 +265,25 @@ fn collision_case(cx: &mut CaseCtx, input: Input) -> CaseResult {
             ("cycle.slice", format!("module M\nstruct Node {{ l: Link }}\nstruct Link {{ n: {} }}\n", if with_use { "Sequence<Node>" } else { "Node?" })),
             ("leaf.slice", "module M\nstruct Leaf { e: Envelope? }\n".into()),
         ],
+        // a member with the scoped name of a module of another file (F-15b): with a doc link whose
+        // target is that name, a warning came and went with the file order
+        10 => vec![
+            ("a.slice", format!("module M\nenum E {{ A }}\n{}struct S {{}}\n", if with_use { "/// See {@link E::A}.\n" } else { "" })),
+            ("b.slice", "module M::E::A\nstruct X {}\n".into()),
+        ],
+        11 => vec![
+            ("a.slice", "module M::S::f\ncustom Deep\n".into()),
+            ("b.slice", format!("module M\nstruct S {{ f: int32 }}\n{}custom C\n", if with_use { "/// @see S::f\n" } else { "" })),
+            ("c.slice", "module M\nstruct Unrelated {}\n".into()),
+        ],
+        12 => vec![
+            ("a.slice", format!("module M\ninterface I {{\n    {}op(p: bool)\n}}\n", if with_use { "/// {@link I::op} again\n    " } else { "" })),
+            ("b.slice", "module M::I::op\nstruct X {}\n".into()),
+        ],
+        13 => vec![
+            ("a.slice", "module M\ninterface I { op(p: bool) -> (a: int32, b: int32) }\n".into()),
+            ("b.slice", format!("module M::I::op::{}\nstruct X {{}}\n", if with_use { "p" } else { "b" })),
+        ],
         _ => vec![
             ("a.slice", "module M\nenum Outer { A(x: Inner) }\nstruct Before { o: Outer }\n".into()),
             ("b.slice", format!("module M\nstruct Inner {{ back: {} }}\n", if with_use { "Dictionary<int32, Outer>" } else { "Outer?" })),
@@ -276,6 +295,7 @@ fn collision_case(cx: &mut CaseCtx, input: Input) -> CaseResult {
     cx.label_if(matches!(template, 1 | 2 | 5), "definition-vs-nested-module");
     cx.label_if(matches!(template, 6 | 7), "preprocessor-symbols-across-files");
     cx.label_if(matches!(template, 8 | 9), "cycle-across-files");
+    cx.label_if(matches!(template, 10..=13), "member-vs-module");
     let dir = CaseDir::new(&cx.workdir, cx.shard, cx.case_no);
     for (n, t) in &files {
         dir.write(n, t.as_bytes());
@@ -403,7 +423,7 @@ impl Check for C15 {
         "C15"
     }
     fn rule(&self) -> String {
-        "families: in-process = proptest choice sequences -> multi-file programs (1..4 files, cross-file and cross-module references, aliases, inheritance, re-opened modules; valid, with warnings, or with one injected error) written to real files and compiled with compile_from_options in every permutation of the files and every source/reference assignment: acceptance, per-path observed content and the multiset of warnings (code, level, message, span) must not change; collisions = 20 templates (same definition in two files, definition vs nested module of another file, preprocessor symbols defined in one file and tested in another, containment cycles spread over files and used from outside; each with and without a variation) in every order and every source/reference assignment; binary = the same argv (one generator with five arguments; now and then an extra module-less file at a drawn position) twice in fresh processes (byte-identical stdout, stderr, exit status, generator request) plus one random permutation and reference assignment (acceptance and per-path decoded request content). Non-trivial = >= 2 files".into()
+        "families: in-process = proptest choice sequences -> multi-file programs (1..4 files, cross-file and cross-module references, aliases, inheritance, re-opened modules; valid, with warnings, or with one injected error) written to real files and compiled with compile_from_options in every permutation of the files and every source/reference assignment: acceptance, per-path observed content and the multiset of warnings (code, level, message, span) must not change; collisions = 28 templates (same definition in two files, definition vs nested module of another file, enumerator / field / operation / parameter / return member vs module of another file, preprocessor symbols defined in one file and tested in another, containment cycles spread over files and used from outside; each with and without a variation) in every order and every source/reference assignment; binary = the same argv (one generator with five arguments; now and then an extra module-less file at a drawn position) twice in fresh processes (byte-identical stdout, stderr, exit status, generator request) plus one random permutation and reference assignment (acceptance and per-path decoded request content). Non-trivial = >= 2 files".into()
     }
     fn assumptions(&self) -> Vec<String> {
         vec!["only the order of files and of reports may change; error diagnostics of rejected programs are not compared across arrangements (only that they are rejected)".into()]
@@ -420,6 +440,7 @@ impl Check for C15 {
             "definition-vs-nested-module",
             "preprocessor-symbols-across-files",
             "cycle-across-files",
+            "member-vs-module",
             "reproducibility-compared",
             "request-content-compared",
             "binary-module-less-file-not-last",
@@ -442,7 +463,7 @@ impl Check for C15 {
         };
         let cfg2 = cfg.clone();
         vec![
-            Family::enumerate("collisions", 20, 1, collision_case),
+            Family::enumerate("collisions", 28, 1, collision_case),
             Family::bytes("in-process", 700, tier.pick(600, 8_000), move |cx, i| in_process_case(cx, i, &cfg)),
             Family::bytes("binary", 700, tier.pick(60, 1_000), move |cx, i| binary_case(cx, i, &cfg2)),
         ]
